@@ -7,7 +7,7 @@ EXPLANATION = ('CrossHair executes the real BaseTimeParser.match_to_time (Englis
 ASSUMPTIONS = ['regex match objects are replaced by a stub that exposes named groups (hour/min/sec as digit strings, desc as text); '
                'which surface strings the English TimeRegex patterns accept is not decided here',
                'am/pm spellings checked: am, pm, a.m., p.m., a, p']
-OUTSIDE = ['regex language of the English time patterns (glue class G of DESIGN §3)', 'written-out times ("half past three"), time zones']
+OUTSIDE = ['which match the engine prefers inside longer text (the language layer O7.1 shows a full match exists)', 'written-out times ("half past three"), time zones']
 U = 'recognizers_date_time.date_time.utilities:DateTimeFormatUtil.'
 
 
@@ -37,4 +37,12 @@ def obligations(tier):
                   bounds='date 1900..2099 (day<=28), h 0..23 (1..12 with am/pm), m,s 0..59; inner extractors/parsers stubbed, the time value comes from the real match_to_time',
                   encodes=['recognizers_date_time.date_time.base_datetime:BaseDateTimeParser.merge_date_and_time'],
                   stubs=['date/time extractors return fixed spans; date parser returns a symbolic date']))
+    L = 'harness.layouts:'
+    tl = [{'kind': 'time', 'culture': 'en-us', 'layout': l} for l in ('hh:mm', 'hh:mm:ss', 'h:mm ap', 'h ap', 'hap')]
+    obs.append(Ob('O7.1-language', 'fn', L + 'inclusion', slices=tl, timeout=t,
+                  descr='every 24-hour time HH:MM[:SS] and every 12-hour time with am/pm/a.m./p.m. is fully matched by one of the English time patterns',
+                  bounds='unbounded over the layout language (all h, m, s)', engine='z3 regular-expression solver on an over-approximating translation of the real pattern sources (assertions dropped)',
+                  encodes=['recognizers_date_time.date_time.english.time_extractor_config:EnglishTimeExtractorConfiguration.__init__']))
+    obs.append(Ob('O7.1-api-members', 'fn', L + 'api_members', slices=[dict(x, n=12 if tier == 'quick' else 80) for x in tl], timeout=t,
+                  descr='composition check: solver-generated times resolve through recognize_datetime to that time', bounds='12 (thorough 80) z3 models per layout'))
     return obs
